@@ -186,3 +186,19 @@ where
         }
     }
 }
+
+#[cfg(feature = "verif-hooks")]
+impl<T> ValueAllocator<T>
+where
+    T: PrimInt + One + Debug,
+{
+    /// Verification hook: the free intervals in iteration order of the pool
+    pub fn verif_intervals(&self) -> alloc::vec::Vec<(T, T)> {
+        self.pool.iter().map(|iv| (iv.low, iv.high)).collect()
+    }
+
+    /// Verification hook: configured range
+    pub fn verif_range(&self) -> (T, T) {
+        (self.lowest, self.highest)
+    }
+}
